@@ -9,15 +9,20 @@ pub mod c06;
 pub mod c07;
 pub mod c08;
 pub mod c09;
+pub mod c10;
+pub mod c11;
 pub mod c12;
 
 pub fn all() -> Vec<PropDef> {
-    vec![c01::def(), c02::def(), c03::def(), c04::def(), c05::def(), c06::def(), c07::def(), c08::def(), c09::def(), c12::def()]
+    vec![c01::def(), c02::def(), c03::def(), c04::def(), c05::def(), c06::def(), c07::def(), c08::def(), c09::def(), c10::def(), c11::def(), c12::def()]
 }
 
 /// Helper sub-commands (child processes of some checks).
-pub fn subcommand(_name: &str, _args: &[String]) -> Option<i32> {
-    None
+pub fn subcommand(name: &str, args: &[String]) -> Option<i32> {
+    match name {
+        "eval-event" if !args.is_empty() => Some(c11::eval_event_cmd(&args[0])),
+        _ => None,
+    }
 }
 
 /// Map a detdiff result into the engine's outcome, recording the label.
